@@ -70,12 +70,17 @@ def gen_tree(rng):
             p = (d + "/" if d else "") + f
             k += 1
             files[p] = FX.format(k)
-    # a conftest that pulls a helper module in
-    if rng.random() < 0.5:
+    # files that pull a helper module in (conftest.py, test_*.py and *_test.py alike)
+    importers = []
+    for _ in range(rng.choice([0, 1, 1, 2])):
         d = rng.choice(dirs)
-        files[(d + "/" if d else "") + "conftest.py"] = "from .fx_mod import *\n" + FX.format("c")
-        files[(d + "/" if d else "") + "fx_mod.py"] = FX.format("m")
-    return files
+        imp = rng.choice(["conftest.py", "test_imp.py", "imp_test.py"])
+        mod = "fx_mod_%d" % len(importers)
+        form = rng.choice(["from .%s import *", 'pytest_plugins = ["%s"]', "from %s import *"])
+        files[(d + "/" if d else "") + imp] = (form % mod) + "\n" + FX.format("i%d" % len(importers))
+        files[(d + "/" if d else "") + mod + ".py"] = FX.format("m%d" % len(importers))
+        importers.append(((d + "/" if d else "") + imp, (d + "/" if d else "") + mod + ".py"))
+    return files, importers
 
 
 def oracle(files, unreadable, patterns, dirs_named_like_tests):
@@ -107,7 +112,7 @@ def run(tier, seed):
     groups = []
     for i in range(n):
         rng = r.rng
-        files = gen_tree(rng)
+        files, importers = gen_tree(rng)
         unreadable = set(rng.sample(sorted(files), min(len(files), rng.choice([0, 0, 1, 2]))))
         patterns = rng.sample(PATTERNS, rng.choice([0, 0, 1, 2, 3]))
         locs = [None] + rng.sample(LOCATIONS[1:], 3)
@@ -130,7 +135,7 @@ def run(tier, seed):
             cases.q("dump")
             cases.q("unused")
             names.append(name)
-        groups.append((names, files, unreadable, patterns, locs))
+        groups.append((names, files, unreadable, patterns, locs, importers))
         if any(skip_dir(c) for p in files for c in p.split("/")[:-1]) and (unreadable or patterns):
             r.nontrivial.add(tuple(sorted(files)))
         if i < 2:
@@ -143,8 +148,9 @@ def run(tier, seed):
             return None
         return set(x for x in ans.split("cache=[", 1)[1].split("]", 1)[0].split() if x)
     e_sp = next((x for x in r.known if x["id"] == "C13-third-party-by-substring"), None)
-    for (names, files, unreadable, patterns, locs) in groups:
+    for (names, files, unreadable, patterns, locs, importers) in groups:
         want = oracle(files, unreadable, patterns, set())
+        pulled = {m for (imp, m) in importers if imp in want and m not in unreadable and m in files}
         base = None
         for nm, loc in zip(names, locs):
             dk = [k for k in cases.queries if k[0] == nm and cases.queries[k][1] == "dump"][0]
@@ -152,11 +158,10 @@ def run(tier, seed):
             if got is None:
                 continue
             same = core.agree(ia.get(dk, ""), ma.get(dk, ""))
-            # imported helper modules legitimately join the set
-            extra = {p for p in got - want if p.endswith("fx_mod.py")}
-            if got - extra != want:
+            # "plus the modules those files pull in"
+            if got != want | pulled:
                 msg = (f"tree {sorted(files)} at location {loc}, exclude {patterns}, unreadable {sorted(unreadable)}: indexed "
-                       f"{sorted(got)}, the property says {sorted(want)}")
+                       f"{sorted(got)}, the property says {sorted(want | pulled)} (discovered {sorted(want)} + pulled in {sorted(pulled)})")
                 v.violation(nm, msg, f"# {msg}\n" + cases.replay_text(nm))
             uk = (dk[0], dk[1] + 1)
             both = (ia.get(dk) or "") + " unused=" + (ia.get(uk) or "")
